@@ -1206,3 +1206,12 @@ def run(P, rep, tier):
     r038(P, rep)
     r03a(P, rep)
     r036(P, rep)
+    # every statement form leaves the machine stack and the x87 register stack as it found them: a loop whose increment or condition
+    # leaks a register-stack slot per iteration stops early (its condition turns NaN after eight iterations). C20's gen_stmt rule, re-used.
+    # (c12 runs c03.run into a sub-report and c20 into another: guard against re-entrance through c20 -> ... is not needed, c20 imports only c04)
+    from ..report import Report, reissue
+    from . import c20
+    rep.rule('R03.11', 'every gen_stmt arm (if, for/while, do, switch, case, block, goto, label, return, expression statement) is stack-neutral on the machine stack and the x87 stack on every path, so iteration n+1 starts in the state iteration n started in (same obligations as C20 R20.2)', floor=10)
+    sub = Report('C20')
+    c20.run(P, sub, tier)
+    reissue(rep, 'R03.11', sub, 'a repeated statement would run out of x87 registers and compute NaN: ', keep=lambda o: o['key'].startswith('R20.2:'))
